@@ -52,7 +52,7 @@ def sessions(ctx):
         for k in range(ctx.pick(150, 1500)):
             yield chain_session(ctx.seed * 2038074743 + k, ctx.rnd.randint(3, 12)), {'dialect': 'new'}, 'chain'
         for k in range(ctx.pick(60, 600)):
-            g = gen.SessionGen(ctx.seed * 472882027 + k, nconn=(1, 2), nmsg=(15, 40), junk=0.02, cmds=0.4, core=True,
+            g = gen.SessionGen(ctx.seed * 472882027 + k, nconn=(1, 2), nmsg=(15, 40), junk=0.02, cmds=0.4, core=True, unresolved=0.08,
                                matcher_depth=1, with_init_filter=0.5)
             yield g.session(), {'dialect': 'old'}, 'random-live'
     return it
